@@ -214,6 +214,11 @@ func c11Run(c core.Case, env *core.Env) core.Result {
 		st = monstore.FromBytes(img)
 		st.SetReadOnlySentinel(true)
 		b = failingWritable{file.New(st, false)}
+	case "ro-view-of-rw-backend":
+		// a read-only view layered over a backend that is itself writable (e.g. the Backend of a disk opened read-write)
+		st = monstore.FromBytes(img)
+		st.SetReadOnlySentinel(true)
+		b = file.New(file.New(st, false), true)
 	case "writable-reads", "finalized-writable":
 		st = monstore.FromBytes(img)
 		st.SetLog(true)
@@ -511,10 +516,10 @@ func init() {
 	core.Register(&core.Check{
 		ID:          "C11",
 		Level:       "exploration",
-		Rule:        "prebuilt images {fat12, fat16, fat32, ext4, iso9660 (Rock Ridge), squashfs, GPT disk with FAT32 partition, MBR disk with FAT16 partition} are opened read-only through five routes (file.New(store, readOnly=true) over an instrumented store with a write sentinel, a backend whose Writable() fails, diskfs.Open(path, ReadOnly), file.OpenFromPath(path, true), file.New(os file opened O_RDWR, readOnly=true)) and, for clause (c) and finalized images, through a writable backend with a write log; seeded interleavings of mutating entry points (Partition, WritePartitionContents, CreateFilesystem, Mkdir, OpenFile with every write flag, Write through a handle, Rename, Remove, SetLabel, Chmod, Chown, Chtimes, Symlink, Finalize) and reading entry points are driven: every mutator must return an error and cause zero write events, reading calls must cause zero write events, and the image hash - taken before the library first touches the image, so that opening itself is covered - must be unchanged; the same is driven on images with a stale or inconsistent spot a reader might be tempted to repair (image file cut short in the middle of the partition; GPT primary header / primary entries / backup header failing their CRC, FSInfo free count stale, FAT copies differing, FAT dirty flag, ext4 not cleanly unmounted / error flag / mount count at its maximum): refusing such an image is an observation, writing to it is a violation; non-trivial = an interleaving with at least one rejected mutator or checked reading call; distinct = distinct (image, route, seed)",
+		Rule:        "prebuilt images {fat12, fat16, fat32, ext4, iso9660 (Rock Ridge), squashfs, GPT disk with FAT32 partition, MBR disk with FAT16 partition} are opened read-only through six routes (file.New(store, readOnly=true) over an instrumented store with a write sentinel, a backend whose Writable() fails, file.New(file.New(store, false), true) - a read-only view over a writable backend -, diskfs.Open(path, ReadOnly), file.OpenFromPath(path, true), file.New(os file opened O_RDWR, readOnly=true)) and, for clause (c) and finalized images, through a writable backend with a write log; seeded interleavings of mutating entry points (Partition, WritePartitionContents, CreateFilesystem, Mkdir, OpenFile with every write flag, Write through a handle, Rename, Remove, SetLabel, Chmod, Chown, Chtimes, Symlink, Finalize) and reading entry points are driven: every mutator must return an error and cause zero write events, reading calls must cause zero write events, and the image hash - taken before the library first touches the image, so that opening itself is covered - must be unchanged; the same is driven on images with a stale or inconsistent spot a reader might be tempted to repair (image file cut short in the middle of the partition; GPT primary header / primary entries / backup header failing their CRC, FSInfo free count stale, FAT copies differing, FAT dirty flag, ext4 not cleanly unmounted / error flag / mount count at its maximum): refusing such an image is an observation, writing to it is a violation; non-trivial = an interleaving with at least one rejected mutator or checked reading call; distinct = distinct (image, route, seed)",
 		Assumptions: []string{"for the two real-path routes the observation is the SHA-256 of the file before/after (no per-call write log)"},
 		MinSigs:     map[string]int{"quick": 40, "thorough": 1000},
-		NeedMarks:   []string{"damage gpt-primary-header", "damage gpt-backup-header", "damage fsinfo-stale", "damage fat-copies-differ", "damage ext4-not-clean", "route store-ro", "route osfile-rdwr-ro", "damage image-cut-short", "route writable-fails", "route diskfs-open-ro", "route openfrompath-ro", "route writable-reads", "route finalized-writable"},
+		NeedMarks:   []string{"damage gpt-primary-header", "damage gpt-backup-header", "damage fsinfo-stale", "damage fat-copies-differ", "damage ext4-not-clean", "route store-ro", "route ro-view-of-rw-backend", "route osfile-rdwr-ro", "damage image-cut-short", "route writable-fails", "route diskfs-open-ro", "route openfrompath-ro", "route writable-reads", "route finalized-writable"},
 		CPUSec:      300,
 		Cases: func(seed int64, tier string) []core.Case {
 			r := gen.New(seed ^ 0xC11)
@@ -525,7 +530,7 @@ func init() {
 			var cs []core.Case
 			for rep := 0; rep < reps; rep++ {
 				for _, im := range images {
-					for _, rt := range []string{"store-ro", "writable-fails", "diskfs-open-ro", "openfrompath-ro", "osfile-rdwr-ro", "writable-reads"} {
+					for _, rt := range []string{"store-ro", "writable-fails", "ro-view-of-rw-backend", "diskfs-open-ro", "openfrompath-ro", "osfile-rdwr-ro", "writable-reads"} {
 						cs = append(cs, core.MkCase(fmt.Sprintf("%s-%s-%d", im, rt, rep), "readonly-"+im, r.Int63(), c11Case{Image: im, Route: rt, Calls: calls}))
 					}
 					for _, dm := range c11Damages[im] {
